@@ -1738,7 +1738,7 @@ void CppCheck::getErrorMessages(ErrorLogger &errorlogger)
     // TODO: add functions to get remaining error messages
 
     // messages that are created directly in CppCheck, the analysis core or the executors and whose ids were missing in --errorlist
-    for (const InternalError::Type type : {InternalError::AST, InternalError::SYNTAX, InternalError::UNKNOWN_MACRO, InternalError::INTERNAL, InternalError::LIMIT, InternalError::INSTANTIATION})
+    for (const InternalError::Type type : {InternalError::AST, InternalError::UNKNOWN_MACRO, InternalError::INTERNAL, InternalError::LIMIT, InternalError::INSTANTIATION})
         errorlogger.reportErr(ErrorMessage::fromInternalError(InternalError(nullptr, "Internal error message", type), nullptr, ""));
     errorlogger.reportErr(ErrorMessage({}, "", Severity::information, "This file is not analyzed. Cppcheck failed to extract a valid configuration. Use -v for more details.", "noValidConfiguration", Certainty::normal));
     errorlogger.reportErr(ErrorMessage({}, "", Severity::information, "Limiting analysis of branches. Use --check-level=exhaustive to analyze all branches.", "normalCheckLevelMaxBranches", Certainty::normal));
